@@ -6,6 +6,7 @@ import pcommon
 from cxxheaderparser.simple import parse_string
 from cxxheaderparser.errors import CxxParseError
 
+TECHNIQUE = 'Lean 4: refinement proof of the access-specifier machine to a function of the history for any nesting, stack refinement, monotone anonymous ids for every client; member grammar decided by correspondence + AST-first oracle (not a theorem)'
 LEAN_TARGET = "CxxModel.Props.C03"
 THEOREMS = ["Cxx.C03_access_tracks", "Cxx.C03_member_access", "Cxx.C03_stack_refines", "Cxx.C03_anon_mono",
             "Cxx.C03_anon_ids_increase", "Cxx.access_tracks"]
